@@ -274,6 +274,13 @@ def tests_without_command(g):
 # generators
 # ------------------------------------------------------------------------------------------------
 
+# output regimes of the exhaustive small graphs: what target n<i> declares. In every regime but 'distinct' ALL targets
+# declare overlapping outputs, so a graph is conflict-free only if its targets are totally ordered — with 3 or 4
+# declarers of one file / image tag / directory every partial order (forks, joins, chains through aliases) occurs
+SMALL_OUT = {"same": lambda i: "x", "distinct": lambda i: "o%d" % i, "docker": lambda i: "docker::img",
+             "dir": lambda i: "dir::d" + ("/" if i % 2 else ""), "nest": lambda i: "dir::d" + "/s" * i}
+
+
 def small_graphs(n, outs_mode, allow_self=True):
     """all graphs with exactly n nodes n0..n{n-1} in the root package: every node a target or an alias, every
     dependency set over the n labels (self included) for targets, every actual for aliases. outs_mode 'same': every
@@ -286,7 +293,7 @@ def small_graphs(n, outs_mode, allow_self=True):
             if not allow_self and mask >> i & 1:
                 continue
             deps = [labels[j] for j in range(n) if mask >> j & 1]
-            opts.append(("t", T("", "n%d" % i, deps, ["x" if outs_mode == "same" else "o%d" % i])))
+            opts.append(("t", T("", "n%d" % i, deps, [SMALL_OUT[outs_mode](i)])))
         for j in range(n):
             if allow_self or j != i:
                 opts.append(("a", A("", "n%d" % i, labels[j])))
@@ -357,6 +364,61 @@ def sibling_graphs():
 
 GLOB_SPELLINGS = ["*.txt", "**/*.go", "src/*.c", "a/../*.x", "../*.txt", "/abs/*.txt", "src/../../*.c", "../**", "../?.txt", "./../[ab].c",
                   "../{x,y}.h", "sub/**/../../../*.c"]
+
+
+def fork_graphs():
+    """>= 3 declarers of one output with a PARTIAL order: a base that everything depends on (directly, through an alias,
+    from nested packages) and two or three variants that are unordered among themselves — invalid; and the same with the
+    variants chained — valid. Every output kind; the names are permuted so that the base (the declarer that is ordered
+    with all others) comes first, in the middle or last in label order."""
+    kinds = {"file": lambda i: "shared.bin", "docker": lambda i: "docker::registry/app:latest", "dir": lambda i: "dir::out",
+             "nested": lambda i: "dir::out" + "/v" * i, "file-in-dir": lambda i: "dir::out" if i == 0 else "out/f%d" % (i if i < 2 else 1)}
+    for names in itertools.permutations(["aa", "mm", "zz"]):
+        for extra in (None, "bb", "zzz"):
+            for kname, out in kinds.items():
+                for pkgs in (("", "", "", ""), ("p", "p", "p", "p"), ("p", "p/q", "p/q/r", "p/q")):
+                    for via_alias in (False, True):
+                        def spec(i, pkg):      # the output spelled from package pkg so that it lands in pkgs[0]
+                            o = out(i)
+                            if o.startswith("docker::"):
+                                return o
+                            pre, body = ("dir::", o[5:]) if o.startswith("dir::") else ("", o)
+                            up = "../" * (len(pkg.split("/")) - len(pkgs[0].split("/"))) if pkg != pkgs[0] else ""
+                            return pre + up + body
+                        base = ("t", T(pkgs[0], names[0], [], [spec(0, pkgs[0])]))
+                        dep = L(pkgs[0], names[0])
+                        nodes = [base]
+                        if via_alias:
+                            nodes.append(("a", A(pkgs[1], "to_base", dep)))
+                            dep = L(pkgs[1], "to_base")
+                        variants = [names[1], names[2]] + ([extra] if extra else [])
+                        for i, vn in enumerate(variants):
+                            nodes.append(("t", T(pkgs[1 + i], vn, [dep], [spec(1 + i, pkgs[1 + i])])))
+                        yield nodes                                   # fork: the variants race
+                        chained = [(k, dict(n)) for k, n in nodes]
+                        prev = None
+                        for k, n in chained:
+                            if k == "t" and n["name"] in variants:
+                                if prev is not None:
+                                    n["deps"] = n["deps"] + [prev]
+                                prev = L(n["pkg"], n["name"])
+                        yield chained                                 # chain: valid
+
+
+def escape_grid():
+    """outputs whose escaping `..` is not at the front of the spelling: after `./`, after a normal component that it
+    cancels, several levels, from packages of depth 0..3; file, dir:: and bin outputs. With k = depth of the package,
+    k ups land in the workspace root (inside), k+1 leave it."""
+    for pkg in ["", "a", "a/b", "a/b/c"]:
+        depth = len(pkg.split("/")) if pkg else 0
+        for prefix in ["", "./", "gen/../", "./gen/../", "g/h/../../", "gen/./../", "gen/sub/../../"]:
+            for ups in range(0, depth + 3):
+                for tail in ("x", "d/x"):
+                    sp = prefix + "../" * ups + tail
+                    yield [("t", T(pkg, "t", [], [sp]))]
+                    yield [("t", T(pkg, "t", [], ["dir::" + sp]))]
+                    yield [("t", T(pkg, "t", [], ["ok.out"], bin=sp))]
+                    yield [("t", T(pkg, "t", [], ["ok.out", "dir::okdir", sp + "2"])), ("t", T(pkg, "u", [L(pkg, "t")], ["dir::" + sp]))]
 
 
 def input_graphs():
@@ -466,9 +528,9 @@ def random_graph(rng, maxn=40):
         elif kind == "in-esc":
             t["inputs"].append(rng.choice(["../up.txt", "a/../../b", "/etc/passwd", ".."]))
         elif kind == "out-esc":
-            t["outs"].append(parse_out("../" * (t["pkg"].count("/") + 2) + "esc.txt"))
+            t["outs"].append(parse_out(rng.choice(["", "./", "g/../", "g/h/../../"]) + "../" * (t["pkg"].count("/") + 2) + "esc.txt"))
         elif kind == "dir-esc":
-            t["outs"].append(parse_out("dir::" + "../" * (t["pkg"].count("/") + 2) + "escdir"))
+            t["outs"].append(parse_out("dir::" + rng.choice(["", "./", "g/../", "g/h/../../"]) + "../" * (t["pkg"].count("/") + 2) + "escdir"))
         elif kind == "test-dep":
             nodes.append(("t", T("c", "zz%d_test" % len(nodes), [], [])))
             t["deps"].append(L("c", nodes[-1][1]["name"]))
@@ -542,6 +604,16 @@ def run(ctx):
                 if n <= 3 and mode == "same":
                     for perm in list(itertools.permutations(nodes))[1:]:
                         add("small%d-perm" % n, list(perm))
+    for mode in ("docker", "dir", "nest"):
+        for nodes in small_graphs(3, mode):
+            add("small3-" + mode, nodes)
+    for mode in ("docker", "dir"):
+        for nodes in small_graphs(4, mode, allow_self=False):
+            add("small4-noself-" + mode, nodes)
+    for nodes in fork_graphs():
+        add("fork", nodes)
+    for nodes in escape_grid():
+        add("escape-grid", nodes)
     four = list(small_graphs(4, "same")) + list(small_graphs(4, "distinct"))
     if quick:
         four = rng.sample(four, 20000)
@@ -1014,6 +1086,18 @@ CLI_CASES = [
     ("file-in-dir-with-sibling", [("t", T("pkg", "report", [], ["dir::out", "out.zip"])), ("t", T("pkg", "extra", [], ["out/extra.txt"]))], False),
     ("nested-dirs-with-sibling", [("t", T("pkg", "site", [], ["dir::dist/"])), ("t", T("pkg", "old", [], ["dir::./dist-old"])),
                                   ("t", T("pkg", "assets", [], ["dir::dist/x/../assets"]))], False),
+    # the escaping `..` hidden behind `./` or a component it cancels, from a nested package, all three output kinds
+    ("inner-dotdot-file-escape", [("t", T("a/b", "t", [], ["gen/../../../x"]))], False),
+    ("inner-dotdot-dir-escape", [("t", T("a/b", "t", [], ["dir::./../../../dir"]))], False),
+    ("inner-dotdot-bin-escape", [("t", T("a/b", "t", [], ["ok.out"], bin="./gen/../../../../tool"))], False),
+    ("inner-dotdot-stays-inside", [("t", T("a/b", "t", [], ["gen/../../x", "dir::./../../dd"]))], True),
+    # three declarers of one image tag / file / directory: the base is ordered with both variants, the variants race
+    ("docker-fork-base-first", [("t", T("", "aa", [], ["docker::img"])), ("t", T("", "mm", [L("", "aa")], ["docker::img"])),
+                                ("t", T("p", "zz", [L("", "aa")], ["docker::img"]))], False),
+    ("docker-fork-via-alias", [("t", T("", "base", [], ["docker::img"])), ("a", A("p", "al", L("", "base"))),
+                               ("t", T("p", "v1", [L("p", "al")], ["docker::img"])), ("t", T("p/q", "v2", [L("p", "al")], ["docker::img"]))], False),
+    ("file-fork-base-first", [("t", T("", "aa", [], ["shared"])), ("t", T("", "mm", [L("", "aa")], ["./shared"])),
+                              ("t", T("p", "zz", [L("", "aa")], ["../shared"]))], False),
     # one package defined by two build files (merged by the loader)
     ("two-files-valid", [("t", T("p", "a", [], ["a.out"])), ("t", T("p", "b", [L("p", "a")], ["b.out"]))], True, ["BUILD.json", "BUILD.yaml"]),
     ("dup-target-two-files", [("t", T("p", "x", [], ["o1"])), ("t", T("p", "x", [], ["o2"]))], False, ["BUILD.json", "BUILD.yaml"]),
